@@ -107,6 +107,10 @@ def gen(tier, rng):
                     v = v[:max(cut, len(prefix))]
                     i += 1
                     out.append((http_line(variants[i % 2], kind, False, 200 if i % 3 else 400, v, body), "long-content-type"))
+    # the success documents of the 200 path, decoded directly as well: through application-defined token types
+    # (catch-all enum, newtype struct, unit enum) and through the reader / owned-value entry points
+    for fam in ("token", "introspection"):
+        out += [(l, "direct-decode/" + lab) for (l, lab) in D.gen_decode(fam, tier, rng, n_docs=(150 if tier == "quick" else 4000)) if l.split(" ")[2] == "E"]
     # transport errors
     for kind in KINDS:
         for v in variants:
